@@ -31,6 +31,8 @@ func init() {
 
 func runC12(c *Ctx) {
 	p := c.Progs["mod"]
+	c.Rule("C12.Y", "compatibility with the party that is not changed with this code: the shim endpoints are mounted by --shim-path alone", 1)
+	ruleHostProxyFlagRoles(c, p, "C12.Y", "mount")
 	c.Rule("C12.C", "channel typestate: no send on / re-close of a closed channel", 3)
 	c.Rule("C12.B", "no endpoint blocks on a peer that may be gone", 4)
 	ruleRecordingDoesNotWait(c, p, "C12.B")
@@ -188,11 +190,24 @@ func runC12(c *Ctx) {
 			// WriteHeader with a non-constant status
 			if cc := CallOf(i); cc != nil && CalleeName(cc) == "(net/http.ResponseWriter).WriteHeader" {
 				if _, isC := ConstInt(Args(cc)[1]); !isC {
-					bad = "non-constant status at " + p.Pos(i.Pos())
+					// a status handed to a reply helper: every value it can take must be an allowed constant
+					rs := Roots(Args(cc)[1])
+					if len(rs) == 0 {
+						bad = "non-constant status at " + p.Pos(i.Pos())
+					}
+					for _, r := range rs {
+						if n, okc := ConstInt(r); okc && allowed[n] {
+							used[n] = true
+						} else if okc {
+							bad = fmt.Sprintf("status %d at %s", n, p.Pos(i.Pos()))
+						} else {
+							bad = "non-constant status at " + p.Pos(i.Pos())
+						}
+					}
 				}
 			}
 			// http.Error with a status that is not one constant: every value it can take must be an allowed constant
-			if cc := CallOf(i); cc != nil && CalleeName(cc) == "net/http.Error" && i.Parent() == fn {
+			if cc := CallOf(i); cc != nil && CalleeName(cc) == "net/http.Error" {
 				if _, isC := ConstInt(PArgs(cc)[2]); !isC {
 					for _, r := range Roots(PArgs(cc)[2]) {
 						if n, okc := ConstInt(r); okc && allowed[n] {
